@@ -29,6 +29,7 @@ def rule_writer(ctx):
     # "a CID-bound writer": bound by the CID object or by the path of the CID
     protocol.validators_accept_cid_path_table(ctx, "O14.8")
     protocol.writer_refusal_after_checks_table(ctx, "O14.9")
+    protocol.row_writer_close_table(ctx, "O14.10")
 
 
 def rule_validation_is_the_readers(ctx):
